@@ -348,6 +348,53 @@ def make_mask_harness(n, chain):
     return harness
 
 
+def float_harness(ex):
+    """float-level job (the real-number model cannot see rounding): for concrete values and awkward constants -- not powers of two -- the
+    VALUE of dataset (+ - * /) constant / array / dataset is bit for bit the value of the plain NumPy operation on the value arrays, for
+    float64, float32 and integer-typed datasets; errors agree with the first-order formula to 1e-12 relative"""
+    from valjean.eponine.dataset import Dataset
+    vals = [np.array([49., 1., 0.1, 3., 7e-3, 2.5e8]), np.array([49., 1., 0.1, 3., 7e-3, 2.5e8], dtype=np.float32),
+            np.array([49, 1, 10, 3, 700, 250000], dtype=np.int32)][ex.choice(3, 'dtype')]
+    errs = np.array([1., 0.5, 0.01, 0., 1e-4, 1e3])
+    consts = [3, 7, 10, 49, 0.1, -3, 1e-3, np.float64(7.), np.int64(49)]
+    c = consts[ex.choice(len(consts), 'constant')]
+    op = ex.choice(4, 'operation')
+    kind = ex.choice(3, 'right-operand')        # constant, array, dataset
+    if kind == 0 and op < 2 and isinstance(c, np.integer):
+        return          # + and - refuse NumPy integer scalars with a documented TypeError
+    ds = Dataset(vals.copy(), errs.copy(), name='ds')
+    if kind == 0:
+        right, rv, re_ = c, c, None
+    elif kind == 1:
+        rv = np.full(vals.shape, c, dtype=float) * (1 + np.arange(vals.size))
+        right, re_ = rv.copy(), None
+    else:
+        rv = np.full(vals.shape, c, dtype=float) * (1 + np.arange(vals.size))
+        re_ = np.abs(rv) * 0.01
+        right = Dataset(rv.copy(), re_.copy(), name='other')
+    fn = [lambda a, b: a + b, lambda a, b: a - b, lambda a, b: a * b, lambda a, b: a / b][op]
+    with np.errstate(all='ignore'):
+        res = fn(ds, right)
+        want = fn(vals, rv)
+    ex.check(isinstance(res, Dataset) and res.value.shape == want.shape and bool(np.array_equal(res.value, want, equal_nan=True)),
+             'float-level:value-is-bit-for-bit-the-plain-array-operation')
+    with np.errstate(all='ignore'):
+        if op < 2:
+            we = errs if re_ is None else np.sqrt(errs**2 + re_**2)
+        elif re_ is None:
+            we = errs * np.abs(rv) if op == 2 else errs / np.abs(rv)
+        else:
+            we = np.abs(want) * np.sqrt((errs / vals)**2 + (re_ / rv)**2)
+    ex.check(bool(np.allclose(res.error, we, rtol=1e-6 if vals.dtype == np.float32 else 1e-12, atol=0, equal_nan=True)),
+             'float-level:error-first-order-formula')
+    ex.check(bool(np.array_equal(ds.value, vals)) and bool(np.array_equal(ds.error, errs)), 'float-level:operands-unchanged')
+
+
+def _job_float(timeout_ms, seed=0):
+    return run_sym('f', float_harness, timeout_ms=timeout_ms, seed=seed,
+                   require_checks=['float-level:value-is-bit-for-bit-the-plain-array-operation'])
+
+
 def _job_mask(n, chain, timeout_ms, seed=0):
     return run_sym('m', make_mask_harness(n, chain), timeout_ms=timeout_ms, seed=seed,
                    require_checks=['mask:masked-cells'])
@@ -369,6 +416,7 @@ def jobs(tier):
             out.append((f'{shape}-{bk}-chain1', _job,
                         dict(shape=shape, binkind=bk, chain=1, timeout_ms=20000 if tier == 'quick' else 120000)))
     out.append(('mask-n2-chain3', _job_mask, dict(n=2, chain=3, timeout_ms=20000)))
+    out.append(('float-level', _job_float, dict(timeout_ms=20000)))
     if tier == 'thorough':
         out.append(('mask-n3-chain3', _job_mask, dict(n=3, chain=3, timeout_ms=20000)))
         out.append(('mask-n2-chain4', _job_mask, dict(n=2, chain=4, timeout_ms=20000)))
@@ -379,6 +427,8 @@ def jobs(tier):
 
 def replay(rp):
     name = rp['job']
+    if name == 'float-level':
+        return replay_sym(float_harness, rp['inputs'])
     if name.startswith('mask-'):
         n, chain = name.split('-')[1:]
         return replay_sym(make_mask_harness(int(n[1:]), int(chain.replace('chain', ''))), rp['inputs'])
